@@ -212,6 +212,43 @@ HandlerPtr build(const Node &n)
             return true;
         });
     }
+    if (k == "relog") {
+        // a handler that itself logs, but only when it runs on a logger thread (re-entrant logging
+        // from a synchronous caller is not supported by the library: its handler mutex is not recursive)
+        int m = n.a < 2 ? 2 : n.a;
+        return FunctionHandlerPtr::create([m](LogMessage &lm) {
+            int cid = parse_call_id(lm.message());
+            int s = sim::self();
+            if (cid < 0 || (cid >> 12) == kNestedProducer || s < 0 || s >= 64 || !C->is_worker[s])
+                return true;
+            if (((cid & 0xfff) + (cid >> 12)) % m != 0)
+                return true;
+            // logging through an object that is being destroyed is outside every property
+            // (DESIGN 4 C04: producers are joined before the destructor paths): not done here either
+            if (C->destroying)
+                return true;
+            C->nesting++;
+            C->producer_tid[kNestedProducer] = s;
+            do_log(kNestedProducer, C->nested++, nested_op(), false);
+            C->nesting--;
+            return true;
+        });
+    }
+    if (k == "slowonce") {
+        // "stuck I/O": the first message that reaches this handler on a logger thread takes seconds
+        int id = n.id % 64, ms = n.b;
+        return FunctionHandlerPtr::create([id, ms](LogMessage &lm) {
+            int s = sim::self();
+            if (s < 0 || s >= 64 || !C->is_worker[s] || C->slow_done[id])
+                return true;
+            C->slow_done[id] = true;
+            int cid = parse_call_id(lm.message());
+            sim::ev(E_H_IN, id, cid);
+            sim::sleep_ns((int64_t)ms * sim::MS);
+            sim::ev(E_H_OUT, id, cid);
+            return true;
+        });
+    }
     if (k == "rec")
         return QSharedPointer<RecSink>::create(n.a);
     if (k == "gate")
@@ -236,6 +273,20 @@ void build_pipeline(Pipeline *target, const Node &root)
         sim::ev(E_EXIT, cid);
         return true;
     }));
+}
+
+const Op &nested_op()
+{
+    static Op op;
+    if (op.kind.empty()) {
+        op.kind = "log";
+        op.a = 1; // warning
+        op.b = 0; // default category
+        op.c = 1 | (1 << 8);
+        op.d = 7;
+        op.s = "nested";
+    }
+    return op;
 }
 
 char *heap_dup(const char *s)
@@ -411,6 +462,9 @@ void run_ops(int producer, const std::vector<Op> &ops)
         } else if (k == "destroy") {
             if (!C->oth || C->singleton)
                 continue;
+            C->destroying = true;
+            while (C->nesting > 0)
+                sim::yield("wait-nested-log");
             sim::ev(E_STOP_BEGIN, (int)i, 3, C->app ? 1 : 0);
             if (C->logger)
                 delete C->logger;
@@ -436,6 +490,9 @@ void run_ops(int producer, const std::vector<Op> &ops)
                 sim::ev(E_APP, 0);
             }
         } else if (k == "exit") {
+            C->destroying = true;
+            while (C->nesting > 0)
+                sim::yield("wait-nested-log");
             sim::ev(E_STOP_BEGIN, (int)i, 4, C->app ? 1 : 0);
             exit(0);
         } else if (k == "open_gate") {
@@ -472,7 +529,29 @@ void setup_c11(const Plan &P)
     int size = P.cfg["max_size"].toInt();
     int cnt = P.cfg["max_count"].toInt();
     RotatingFileSink::Options opts = RotatingFileSink::Options(P.cfg["options"].toInt());
-    if (mode.startsWith("fluent")) {
+    if (mode == "fluent-multi") {
+        QString apath = QString::fromStdString(C->rundir) + "/audit.log";
+        SimplePipeline &sub = C->logger->pipeline();
+        int kind = P.cfg["audit_kind"].toInt(), arg = P.cfg["audit_arg"].toInt();
+        if (kind == 0)
+            sub.filterLevel((QtMsgType)arg);
+        else if (kind == 1)
+            sub.filterCategory(QString::fromUtf8(kCatRuleMenu[arg % kNumCatRules]));
+        else
+            sub.filter(QString::fromUtf8(kRegexMenu[arg % kNumRegex]));
+        sub.format(QStringLiteral("%{message}"));
+        if (P.cfg["audit_rot"].toBool())
+            sub.sendToFile(apath, P.cfg["audit_size"].toInt(), 0, RotatingFileSink::None);
+        else
+            sub.sendToFile(apath);
+        sub.end();
+        C->logger->format(QStringLiteral("%{message}"));
+        if (P.cfg["main_rot"].toBool())
+            C->logger->sendToFile(path, size, cnt, opts);
+        else
+            C->logger->sendToFile(path);
+        C->logger->installMessageHandler();
+    } else if (mode.startsWith("fluent")) {
         if (P.cfg["pattern"].toInt() >= 0)
             C->logger->format(QStringLiteral("%{message}"));
         if (mode == "fluent-rot")
@@ -515,6 +594,7 @@ sim::SchedConfig sched_config(const Plan &P)
     sc.yield_mask_seed = P.sched_seed * 0x9E3779B97F4A7C15ull;
     sc.spurious_pct = P.spurious_pm;
     sc.time_adv_pct = P.time_adv_pct;
+    sc.clock_yield_pct = P.clock_yield_pct;
     sc.stall_tid = P.stall_tid;
     sc.stall_from = (uint32_t)P.stall_from;
     sc.stall_len = (uint32_t)P.stall_len;
